@@ -40,6 +40,43 @@ def plan(tier: str, seed: int) -> Dict[str, Any]:
     return {'tasks': tasks, 'budget_s': 80 if tier == 'quick' else 1800, 'task_timeout': 400, 'selfcheck': 2}
 
 
+_WORDS = ['alpha', 'beta', 'gamma', 'delta', 'omega', 'kappa', 'sigma', 'theta', 'lambda', 'zeta', 'eta', 'iota', 'rho', 'tau', 'phi', 'chi', 'psi', 'nu', 'xi', 'pi']
+
+
+def add_constants(files: Dict[str, str], rng: Rng) -> Dict[str, str]:
+    """Module-level constants bound to literal collections (values whose Python-level iteration order depends on the hash
+    seed: sets of strings / bytes / tuples, also nested), so that inferred types and rendered values are exercised."""
+    out = dict(files)
+    for path in sorted(files):
+        r = rng.sub(path)
+        if not path.endswith('.py') or not r.chance(0.4):
+            continue
+        lines = []
+        for j in range(r.randint(1, 3)):
+            rr = r.sub(j)
+            n = rr.choice([3, 8, 17, 24, 40])
+            elems = sorted({f'"{rr.choice(_WORDS)}-{rr.below(1000)}"' for _ in range(n)})
+            rr.shuffle(elems)
+            odd = rr.choice([None, 'b"raw"', 'None', '("a", "b")', '3', '2.5'])
+            if odd is not None:
+                elems.insert(rr.below(len(elems) + 1), odd)
+            shape = rr.choice(['set', 'frozenset', 'dictofsets', 'list', 'tupleofsets'])
+            body = ', '.join(elems)
+            if shape == 'set':
+                val = '{' + body + '}'
+            elif shape == 'frozenset':
+                val = 'frozenset({' + body + '})'
+            elif shape == 'dictofsets':
+                val = '{"k": {' + body + '}, "l": {"x", "y"}}'
+            elif shape == 'list':
+                val = '[' + body + ']'
+            else:
+                val = '({' + body + '}, {"p", "q", "r"})'
+            lines.append(f'K{j}_TABLE = {val}\n\"\"\"A table of constants.\"\"\"\n')
+        out[path] = files[path] + '\n' + ''.join(lines)
+    return out
+
+
 def make_case(rng: Rng) -> Dict[str, Any]:
     """A world (generated or a copy of real test packages) plus a command line."""
     kind = rng.sub('kind').weighted([('generated', 7), ('real', 3)])
@@ -48,7 +85,7 @@ def make_case(rng: Rng) -> Dict[str, Any]:
         prof = W.profile(reexport=0.5, roots=(1, 3), zope=0.1, fields=0.3, dup=0.1, nested=0.3,
                          cyclic=rng.sub('cyc').chance(0.2), subscript=0.2, case_twins=0.5)
         world = W.gen_world(rng.sub('world'), prof)
-        cfg['files'] = W.world_files(world)
+        cfg['files'] = add_constants(W.world_files(world), rng.sub('constants'))
         cfg['roots'] = [m for m in world['modules'] if '.' not in m]
         cfg['root_is_pkg'] = {m: world['modules'][m]['pkg'] for m in cfg['roots']}
     else:
